@@ -54,6 +54,7 @@ class World:
                  'nopoll': [f'np{j}' for j in range(rng.choice([0, 0, 1]))],
                  'failrate': rng.choice([0, 0, 0.3, 1.0]), 'failkind': rng.choice(['secop', 'silent', 'zerodiv', 'keyerror', 'mixed']),
                  'comfail_startup': rng.random() < 0.15}
+            m['hidden'] = rng.random() < 0.25
             mods.append(m)
         changes = []
         T = rng.choice([200, 300, 600])
@@ -134,6 +135,8 @@ class World:
             c = {'cls': cls, 'description': name}
             if scen['shared']:
                 c['io'] = 'io'
+            if m.get('hidden'):
+                c['export'] = False       # an internal module: not described, polled like every other one
             cfg[name] = c
         if scen['shared'] and scen.get('unpolled_writer'):
             # a module without polling that rides on the shared poll thread only for its configured start-up write
